@@ -25,7 +25,7 @@ use std::collections::{BTreeMap, HashSet};
 use std::panic::{AssertUnwindSafe, catch_unwind};
 use std::sync::atomic::{AtomicBool, AtomicU64, AtomicUsize, Ordering};
 use std::sync::{Mutex, RwLock};
-use std::time::{Duration, Instant};
+use std::time::Duration;
 
 #[derive(Clone, Debug, PartialEq, Eq, Hash)]
 enum Case {
@@ -142,6 +142,15 @@ fn exec(env: &Env, case: &Case, deadline_s: u64, short_udp: bool, tally: &Tally)
     let mut o = last.expect("at least one run");
     o.failures = vec![Failure { key: "machinery".into(), desc: format!("{}: the subject lost the race for its listening port six times in a row", case.label()), deadline: false }];
     o
+}
+
+/// Key without its trailing length class: what "the same deadline failure" means when deciding
+/// whether another confirmation run (alone, full deadline) is worth its 20+ seconds.
+fn coarse(key: &str) -> String {
+    match key.rsplit_once(".len") {
+        Some((head, _)) => head.to_string(),
+        None => key.to_string(),
+    }
 }
 
 #[derive(Default)]
@@ -379,7 +388,7 @@ pub fn run(args: &Args) -> Report {
                         };
                         let mut verdict: Vec<(Failure, &'static str)> = Vec::new();
                         let mut final_out = None;
-                        let dl_keys: Vec<String> = first.failures.iter().filter(|f| f.deadline).map(|f| f.key.clone()).collect();
+                        let dl_keys: Vec<String> = first.failures.iter().filter(|f| f.deadline).map(|f| coarse(&f.key)).collect();
                         if dl_keys.is_empty() {
                             for f in &first.failures {
                                 verdict.push((f.clone(), ""));
@@ -417,7 +426,7 @@ pub fn run(args: &Args) -> Report {
                                     for f in &second.failures {
                                         verdict.push((f.clone(), " (confirmed: failed again when run alone)"));
                                         if f.deadline {
-                                            *c.entry(f.key.clone()).or_insert(0) += 1;
+                                            *c.entry(coarse(&f.key)).or_insert(0) += 1;
                                         }
                                     }
                                     if c.values().sum::<u64>() >= 2 {
